@@ -1437,7 +1437,7 @@ def gen_web_case(rng):
             'url': url, 'record': rec, 'site': site}
 
 
-FTP_PATHS = ['/pub/file.txt', '/pub/y.png', '/pub/sub', '/pub/sub/', '/pub/', '/pub', '/pub/sub/x.html', '/top.txt', '/',
+FTP_PATHS = ['/pub/sub/deeper', '/pub/sub/deeper/deepest', '/pub/file.txt', '/pub/y.png', '/pub/sub', '/pub/sub/', '/pub/', '/pub', '/pub/sub/x.html', '/top.txt', '/',
              '/pub/*.txt', '/pub/su?', '/pub/nope', '/pub/blog', '/pub/blog/', '/pub/*']
 
 
@@ -1448,6 +1448,9 @@ def gen_ftp_case(rng):
     rec = gen_record(rng, args, url)
     if rng.random() < 0.8:
         rec.update(level=0, inline_level=None, try_count=0, parent_url=None)
+    if rng.random() < 0.2:
+        argv = argv + rng.choice([['--reject-regex', 'sub/$'], ['--reject-regex', '/(sub|blog|tmp)/'], ['--reject-regex', '[a-z]/$'],
+                                  ['--accept-regex', '(pub/|/|sub|blog|txt|png|html)$'.replace('|/|', '|')], ['--reject-regex', 'deeper/']])
     r = rng.random()
     rec['link_type'] = None if r < 0.6 else ('file' if r < 0.8 else 'directory')
     return {'argv': argv, 'hostnames': rng.choice([['a.example'], ['a.example', 'b.example']]), 'url': url, 'record': rec,
@@ -1473,7 +1476,13 @@ def fixed_session_cases():
     for extra, url in (([], 'ftp://a.example/pub/file.txt'), (['--accept-regex', 'file\\.txt$'], 'ftp://a.example/pub/file.txt'),
                        (['--reject-regex', '/$'], 'ftp://a.example/pub/sub'), (['--reject-regex', '/$'], 'ftp://a.example/pub/*.txt'),
                        (['-X', '/pub'], 'ftp://a.example/pub/file.txt'), (['-I', '/pub/sub'], 'ftp://a.example/pub/sub'),
-                       (['--no-parent'], 'ftp://a.example/pub/sub'), ([], 'ftp://a.example/pub/*.txt')):
+                       (['--no-parent'], 'ftp://a.example/pub/sub'), ([], 'ftp://a.example/pub/*.txt'),
+                       # the verdict differs between the bare item URL and the slash-suffixed directory URL it turns into
+                       (['--reject-regex', 'sub/$'], 'ftp://a.example/pub/sub'), (['--reject-regex', '/(sub|blog|tmp)/'], 'ftp://a.example/pub/sub'),
+                       (['--reject-regex', '/(sub|blog|tmp)/'], 'ftp://a.example/pub/blog'),
+                       (['--accept-regex', '(pub/|sub|blog|txt)$'], 'ftp://a.example/pub/sub'),
+                       (['--accept-regex', '(pub/|sub|blog|txt)$'], 'ftp://a.example/pub/blog'),
+                       (['--reject-regex', 'deeper/'], 'ftp://a.example/pub/sub/deeper'), (['-X', '/pub/sub/'], 'ftp://a.example/pub/sub')):
         for preserve in (False, True):
             ftp.append({'argv': ['ftp://a.example/'] + extra, 'hostnames': ['a.example'], 'url': url, 'record': dict(base, link_type=None),
                         'glob': True, 'preserve': preserve})
